@@ -1,10 +1,14 @@
-(* C09, part 3: the guard of the d = 2 shortcut is the btype LABEL.  A complete orthonormal
-   Hermitian d = 2 basis that is not traceless ( |0><0|, |1><1|, X/sqrt2, Y/sqrt2 ), labelled
-   'Pauli', is sent through the shortcut and gets a cumulant function that differs from the
-   trace-tensor formula.                                                                    *)
+(* C09, part 3: the guard of the d = 2 shortcut.
+   After fix 63446ae the guard also requires basis == Basis.pauli(1); then the shortcut is sound
+   for every basis it is applied to ([shortcut_guard_sound]: whatever the label, the two branches
+   agree on a basis whose entries are those of the Pauli basis, all Gamma, Delta).
+   The pre-fix guard looked at the btype LABEL only: a complete orthonormal Hermitian d = 2 basis
+   that is not traceless ( |0><0|, |1><1|, X/sqrt2, Y/sqrt2 ), labelled 'Pauli', was sent through
+   the shortcut and got a cumulant function different from the trace-tensor formula
+   ([label_prefix_refuted]); the fixed guard rejects it.                                     *)
 From Coq Require Import ZArith Reals Lra Lia List Bool Setoid Morphisms.
 From FF Require Import Base.Ops Inst.RInst Base.RAlg Base.FMat Model.Numeric Model.Decay Model.Cumulant
-     Proofs.Trapz Proofs.TraceId Proofs.PauliEx Proofs.CumulantAlg Proofs.CumulantPauli.
+     Proofs.Trapz Proofs.TraceId Proofs.PauliOnb Proofs.CumulantAlg Proofs.CumulantPauli.
 Import ListNotations.
 Local Open Scope R_scope.
 
@@ -41,20 +45,62 @@ Proof.
   simpl. csimp. field_simplify. rewrite sP_sq'. lra.
 Qed.
 
-Theorem label_refuted :
+(* the pre-fix guard: d == 2 and btype in ('Pauli', 'GGM') *)
+Definition use_shortcut_prefix (d : nat) (bt : btype) : bool :=
+  Nat.eqb d 2 && match bt with BPauli | BGGM => true | BCustom => false end.
+
+Theorem label_prefix_refuted :
   exists (basis : list MatR) (G D : RMr) i j,
     let n := length basis in let Cb := fun k => toF (nthm basis k) in
     basis_herm 2 n Cb /\ basis_orthonormal 2 n Cb /\ basis_complete 2 n Cb /\
-    use_shortcut 2 BPauli = true /\ (i < n)%nat /\ (j < n)%nat /\
-    rmget RO (nth 0 (cumulant_function RO 2 (use_shortcut 2 BPauli) n basis false [G] [D]) []) i j <>
+    use_shortcut_prefix 2 BPauli = true /\ (i < n)%nat /\ (j < n)%nat /\
+    rmget RO (nth 0 (cumulant_function RO 2 (use_shortcut_prefix 2 BPauli) n basis false [G] [D]) []) i j <>
     rmget RO (nth 0 (cumulant_function RO 2 false n basis false [G] [D]) []) i j.
 Proof.
   exists nt_basis, Gxx, Gxx, 0%nat, 0%nat. cbv zeta.
   split. exact nt_herm. split. exact nt_orthonormal. split. exact nt_complete.
   split. reflexivity. split. simpl; lia. split. simpl; lia.
   change (length nt_basis) with 4%nat.
-  unfold cumulant_function. simpl use_shortcut. cbv iota. simpl combine. simpl map. simpl nth.
+  unfold cumulant_function. simpl use_shortcut_prefix. cbv iota. simpl combine. simpl map. simpl nth.
   unfold cumulant_general, cumulant_shortcut. rewrite !rmget_rmbuild by lia.
   rewrite (cumulant_general_fn_ext 4 _ (T4 2 nt_Cb)) by (try lia; intros; apply (a4get_four_traces 2 nt_basis); auto).
   rewrite general_nt_00. unfold cumulant_shortcut_fn. simpl. lra.
+Qed.
+
+(* ---------- the fixed guard is sound ---------- *)
+(* the verdict [pulse.basis.shape == (4,2,2) and pulse.basis == Basis.pauli(1)] read as equality of entries *)
+Definition is_pauli1 (basis : list MatR) : Prop :=
+  length basis = 4%nat /\ forall k, (k < 4)%nat -> feq 2 (toF (nthm basis k)) (pauli_Cb k).
+
+Lemma T4_ext d n (Cb Cb' : nat -> fmat) : (forall k, (k < n)%nat -> feq d (Cb k) (Cb' k)) ->
+  forall i j k l, (i < n)%nat -> (j < n)%nat -> (k < n)%nat -> (l < n)%nat -> T4 d Cb i j k l = T4 d Cb' i j k l.
+Proof. intros H i j k l Hi Hj Hk Hl. unfold T4. rewrite (H i), (H j), (H k), (H l) by auto. reflexivity. Qed.
+
+(* whatever the label says: on a basis that IS the Pauli basis the shortcut equals the general branch,
+   for all decay amplitudes and frequency shifts, first and second order *)
+Theorem shortcut_guard_sound (basis : list MatR) second (G D : RMr) i j :
+  is_pauli1 basis -> (i < 4)%nat -> (j < 4)%nat ->
+  rmget RO (nth 0 (cumulant_function RO 2 true 4 basis second [G] [D]) []) i j =
+  rmget RO (nth 0 (cumulant_function RO 2 false 4 basis second [G] [D]) []) i j.
+Proof.
+  intros [Hlen Heq] Hi Hj. unfold cumulant_function. simpl combine. simpl map. simpl nth.
+  rewrite shortcut_eq_general by auto.
+  unfold cumulant_general. rewrite !rmget_rmbuild by auto.
+  rewrite (cumulant_general_fn_ext 4 _ (T4 2 pauli_Cb)) by (auto; intros; apply (a4get_four_traces 2 pauli_basis); auto).
+  symmetry.
+  rewrite (cumulant_general_fn_ext 4 _ (T4 2 pauli_Cb)); auto.
+  intros p q r s Hp Hq Hr Hs.
+  rewrite <- Hlen at 1.
+  rewrite (a4get_four_traces 2 basis) by (rewrite Hlen; auto).
+  apply (T4_ext 2 4); auto.
+Qed.
+
+(* the fixed guard: the label alone is not enough, and the mislabelled basis above is rejected *)
+Theorem guard_requires_basis : forall d bt, use_shortcut d bt false = false.
+Proof. intros d bt. unfold use_shortcut. destruct (Nat.eqb d 2), bt; reflexivity. Qed.
+Theorem nt_basis_is_not_pauli1 : ~ is_pauli1 nt_basis.
+Proof.
+  intros [_ H]. specialize (H 0%nat ltac:(lia) 1%nat 1%nat ltac:(lia) ltac:(lia)).
+  unfold toF, nthm, nt_basis, pauli_Cb, pauli_basis, mget in H. simpl in H. injection H as H.
+  assert (0 < sP) by (unfold sP; apply Rinv_0_lt_compat, sqrt_lt_R0; lra). lra.
 Qed.
